@@ -471,6 +471,12 @@ def gen_project(rng, idx):
             files[f"source/includes/extracts-{nm}.yaml"] = f"ref: {nm}-x\ninherit:\n  file: extracts-base.yaml\n  ref: base-x\n...\n"
     for nm in "abc":
         files[f"source/images/{nm}.png"] = {"$b": f"\x89PNG\r\n\x1a\n{nm}"}
+    subdirs = sorted({nm.split("/")[0] for nm in names if "/" in nm})
+    if subdirs and rng.random() < 0.3:
+        # one directory of pages reachable under two names (a symbolic link beside it): under which name its pages are built must
+        # not depend on the order in which the operating system lists the two
+        d = rng.choice(subdirs)
+        files[f"source/{rng.choice(['aaa-', 'zzz-'])}alias"] = {"$link": d}
     if rng.random() < 0.4:
         # two different files that one page refers to under the same spelling: includes in two directories, each with a figure
         # named relative to its own directory. What the page's document lists first must not follow string hashing.
@@ -515,10 +521,23 @@ def write_project(root: Path, files: dict, shuffle_seed: int):
         p = root / name
         p.parent.mkdir(parents=True, exist_ok=True)
         body = files[name]
+        if isinstance(body, dict) and "$link" in body:
+            # a symbolic link (created after the loop, when its neighbours exist; relative target)
+            continue
         if isinstance(body, dict):
             p.write_bytes(body["$b"].encode("latin-1"))
         else:
             p.write_text(body, encoding="utf-8")
+    _make_links(root, files)
+
+
+def _make_links(root: Path, files: dict):
+    for name in sorted(files):
+        body = files[name]
+        if isinstance(body, dict) and "$link" in body:
+            p = root / name
+            p.parent.mkdir(parents=True, exist_ok=True)
+            os.symlink(body["$link"], p)
 
 
 def run_build(root: Path, cfg: dict, prefix_root: Path, out: Path):
